@@ -34,6 +34,14 @@ SEED_KW = {
     "dask.array.linalg.svd_compressed": "seed",
 }
 EXACT = "numpy.linalg.svd"
+# keys the SVD wrappers may impose over the user's solver_kwargs (frozen, one reason each); every other option the
+# wrapper sets must be a DEFAULT that the user's dict overrides
+FORCED_OK = {
+    "sklearn.utils.extmath.randomized_svd": {"n_components": "number of modes is the model's n_modes", "random_state": "seed is the model's random_state (C15)"},
+    "scipy.sparse.linalg.svds": {"k": "number of modes", "solver": "lobpcg is the only svds back end that handles the complex case the branch exists for",
+                                 "random_state": "seed is the model's random_state"},
+    "dask.array.linalg.svd_compressed": {"k": "number of modes", "seed": "seed is the model's random_state"},
+}
 GLOBAL_RNG_PREFIX = ("numpy.random.", "dask.array.random.", "random.")
 GENERATOR_CTORS = {"default_rng", "RandomState", "Generator", "SeedSequence", "PCG64", "Philox"}
 
@@ -166,6 +174,81 @@ def _dict_keys_and_values(ff: FuncFacts, e: ast.expr, call: ast.AST | None = Non
     return keys
 
 
+def _policy_flags(pm, fn: FuncInfo) -> set[str]:
+    """local names that hold the decision of the branch on the solver name: assigned in every case of that branch, or
+    bound to the result of a helper that contains the branch"""
+    from .common import chain_heads, switch_cases
+    out: set[str] = set()
+
+    def has_switch(node) -> list:
+        hits = []
+        for head in chain_heads(node):
+            sw = switch_cases(head)
+            if sw is not None and "solver" in sw[0] and any(isinstance(k, str) and k in SOLVER_CASES for ks, _ in sw[1] for k in ks):
+                hits.append(sw)
+        return hits
+
+    for sw in has_switch(fn.node):
+        sets = [{norm(t) for s in body for n in ast.walk(s) if isinstance(n, ast.Assign) for t in n.targets if isinstance(t, ast.Name)} for _, body in sw[1]]
+        if sets:
+            out |= set.intersection(*sets)
+    ctx = Ctx(pm, fn)
+    for st in walk_no_nested(fn.node):
+        if isinstance(st, ast.Assign) and len(st.targets) == 1 and isinstance(st.targets[0], ast.Name) and isinstance(st.value, ast.Call):
+            for t in ctx.resolve_call(st.value):
+                if t.fn is not None and t.fn is not fn and has_switch(t.fn.node):
+                    out.add(st.targets[0].id)
+    return out
+
+
+def _forced_keys(ff: FuncFacts, e: ast.expr, call: ast.AST) -> set[str]:
+    """keys that win over the user's solver_kwargs in the dict handed to the solver: right operand of `user | {...}`,
+    entries after `**user` in a display, item assignments and .update() on the merged dict (not .setdefault)"""
+    from .common import inline_locals
+    forced: set[str] = set()
+
+    def is_user(x) -> bool:
+        return _mentions_solver_kwargs(ff, x) if not isinstance(x, ast.Dict) else any(k is None and _mentions_solver_kwargs(ff, v) for k, v in zip(x.keys, x.values))
+
+    def keys(d) -> set[str]:
+        return {const_str(k) for k in d.keys if k is not None and const_str(k)} if isinstance(d, ast.Dict) else set()
+
+    def walk(x):
+        if isinstance(x, ast.BinOp) and isinstance(x.op, ast.BitOr):
+            walk(x.left)
+            walk(x.right)
+            if is_user(x.left) and isinstance(x.right, ast.Dict):
+                forced.update(keys(x.right))
+        elif isinstance(x, ast.Dict):
+            seen_user = False
+            for k, v in zip(x.keys, x.values):
+                if k is None and _mentions_solver_kwargs(ff, v):
+                    seen_user = True
+                elif seen_user and k is not None and const_str(k):
+                    forced.add(const_str(k))
+
+    try:
+        walk(inline_locals(ff, e))
+    except Exception:
+        walk(e)
+    if isinstance(e, ast.Name):
+        gc = _gkeys(ff, call)
+        for st in ff.statements():
+            gs = _gkeys(ff, st)
+            if not (gs >= gc or gs <= gc):
+                continue
+            if isinstance(st, ast.Assign):
+                for t in st.targets:
+                    if isinstance(t, ast.Subscript) and isinstance(t.value, ast.Name) and t.value.id == e.id and const_str(t.slice):
+                        forced.add(const_str(t.slice))
+            if isinstance(st, ast.Expr) and isinstance(st.value, ast.Call) and isinstance(st.value.func, ast.Attribute) and st.value.func.attr == "update" \
+                    and isinstance(st.value.func.value, ast.Name) and st.value.func.value.id == e.id:
+                for a in st.value.args:
+                    forced.update(keys(a))
+                forced.update(k.arg for k in st.value.keywords if k.arg)
+    return forced
+
+
 def _wrappers(chk):
     pm = chk.pm
     dec = pm.own_method("xeofs.linalg.decomposer.Decomposer", "fit")
@@ -182,6 +265,13 @@ def _wrappers(chk):
                       construct=f"{solver}: {norm(kw)}")
             keys = _dict_keys_and_values(ff, kw, call)
             per[solver] = sorted(k.replace('?conditional', '') for k in keys)
+            if solver in FORCED_OK:
+                forced = _forced_keys(ff, kw, call)
+                extra = sorted(forced - set(FORCED_OK[solver]))
+                chk.check(not extra, "WIRE.precedence", fn, call, construct=f"{solver}: only {sorted(FORCED_OK[solver])} are imposed over the user's solver_kwargs",
+                          why=f"the wrapper's values for {extra} override what the user passes in solver_kwargs (they are merged AFTER the user's dict): "
+                              "a documented pass-through option is accepted but silently has no effect; wrapper defaults must be set with setdefault / merged before the user's dict",
+                          facts={"forced": sorted(forced)})
             if solver in SEED_KW:
                 sk = SEED_KW[solver]
                 ps = keys.get(sk, [])
@@ -196,6 +286,13 @@ def _wrappers(chk):
                 chk.ok("RNG.solver", fn, call, construct=f"{solver}: deterministic", nontrivial=False)
             else:
                 raise AnalysisError(f"{fn.qualname}: unknown solver callable {solver} (extend the SEED_KW table after reading its API)")
+            # the exact solver runs exactly when the solver policy says so (flag computed by the branch on self.solver)
+            from .common import atomic_conditions
+            flags = [(norm(t), pol) for t, pol in atomic_conditions(ff, call) if isinstance(t, ast.Name) and t.id in _policy_flags(pm, fn)]
+            want = solver == EXACT
+            chk.check(bool(flags) and all(pol == want for _, pol in flags), "EXH.solver.branch", fn, call,
+                      construct=f"{solver} runs when use_exact is {want}",
+                      why=f"{solver} is called under {flags}: solver='full' must use the exact solver and 'randomized' an approximate one; the policy flag is inverted or ignored")
         facts[fn.qualname] = per
         _sign(chk, fn, ff)
     a, b = facts[dec.qualname], facts[svd.qualname]
